@@ -114,6 +114,11 @@ def assignments(tier):
             if na == nb and a[0] == b[0]:
                 continue
             out.append((2, {a: na, b: nb}))
+    # a clash of two joined grounding names (a3_o1(o1) / a3(o1,o1)) together with an item that already
+    # carries the fresh name a compiler would pick to resolve it
+    for it in [("flu", "b"), ("flu", "p"), ("obj", "s1"), ("typ", "S"), ("act", "a2")]:
+        for fresh in ("a3_o1_o1_0", "a3_o1_o1_1"):
+            out.append((2, {("act", "a1"): "a3_o1", it: fresh}))
     return out
 
 
